@@ -5,6 +5,7 @@ import (
 	"fmt"
 	"math/rand"
 	"strings"
+	"sync/atomic"
 	"time"
 
 	"github.com/smallnest/rpcx/client"
@@ -163,4 +164,106 @@ func trunc(s string, n int) string {
 		return s[:n] + "…"
 	}
 	return s
+}
+
+// c07PanicHold: a router handler panics; while the server is still REPORTING that panic (the
+// server's HandleServiceError callback is held by the harness – a slow error reporter) further
+// requests are read and answered on other connections.  The caller of the panicking request must
+// still get exactly its own service error (its sequence number, the panic value), and nobody else
+// may get it.
+func c07PanicHold(o *Out, rig *srvRig, r *rand.Rand, id *int, cfg srvOpts) {
+	rounds := 3
+	if thorough() {
+		rounds = 25
+	}
+	arrived := make(chan struct{}, 16)
+	release := make(chan struct{})
+	var holding int32
+	rig.s.HandleServiceError = func(err error) {
+		if atomic.LoadInt32(&holding) == 1 {
+			arrived <- struct{}{}
+			<-release
+		}
+	}
+	defer func() { rig.s.HandleServiceError = nil }()
+	token := func(m map[string]string) map[string]string {
+		if cfg.auth {
+			m[share.AuthKey] = "good"
+		}
+		return m
+	}
+	for round := 0; round < rounds; round++ {
+		*id++
+		pid := *id
+		pseq := uint64(500000 + r.Intn(1000))
+		text := fmt.Sprintf("P%d:boom", pid)
+		victim, err := dialRaw(rig.addr)
+		if err != nil {
+			o.Violate("srv.rig", "cannot connect: "+err.Error(), nil)
+			return
+		}
+		release = make(chan struct{})
+		atomic.StoreInt32(&holding, 1)
+		victim.send(rawReq{id: pid, seq: pseq, path: "Rt", method: "Do", ser: protocol.JSON, meta: token(map[string]string{"rid": fmt.Sprint(pid)}),
+			args: &SArgs{ID: pid, Mode: "panic", Text: text}})
+		held := false
+		select {
+		case <-arrived:
+			held = true
+		case <-time.After(2 * time.Second):
+		}
+		atomic.StoreInt32(&holding, 0)
+		// traffic on other connections while the panic is being reported
+		nPeers, per := 2+r.Intn(3), 2+r.Intn(4)
+		stray := ""
+		for k := 0; k < nPeers; k++ {
+			p, err := dialRaw(rig.addr)
+			if err != nil {
+				continue
+			}
+			want := map[uint64]int{}
+			for j := 0; j < per; j++ {
+				*id++
+				sq := uint64(r.Intn(1 << 20))
+				for sq == pseq || want[sq] != 0 {
+					sq++
+				}
+				want[sq] = *id
+				p.send(rawReq{id: *id, seq: sq, path: "Svc", method: "Do", ser: protocol.JSON, meta: token(map[string]string{"rid": fmt.Sprint(*id)}), args: &SArgs{ID: *id, Mode: "ok"}})
+			}
+			msgs, _ := p.readAll(per, 2*time.Second)
+			for _, m := range msgs {
+				if _, ok := want[m.Seq()]; !ok || m.MessageStatusType() == protocol.Error {
+					stray = fmt.Sprintf("a bystander connection received seq=%d status=%v error=%q", m.Seq(), m.MessageStatusType(), m.Metadata[protocol.ServiceError])
+				}
+			}
+			if len(msgs) != per && stray == "" {
+				stray = fmt.Sprintf("a bystander connection got %d responses to %d requests", len(msgs), per)
+			}
+			p.c.Close()
+		}
+		close(release)
+		msgs, _ := victim.readAll(1, 2*time.Second)
+		victim.c.Close()
+		o.Eval(fmt.Sprintf("panic-hold round=%d pool=%v auth=%v held=%v peers=%d per=%d", round, cfg.pool, cfg.auth, held, nPeers, per), held)
+		o.Count("panic-hold.rounds")
+		rp := map[string]any{"panicking_request": map[string]any{"seq": pseq, "path": "Rt", "method": "Do", "panic": text}, "error_reporting_held": held,
+			"bystander_connections": nPeers, "requests_each": per, "pool": cfg.pool, "auth": cfg.auth}
+		bad := ""
+		switch {
+		case len(msgs) != 1:
+			bad = fmt.Sprintf("the caller of the panicking request received %d responses", len(msgs))
+		case msgs[0].Seq() != pseq:
+			bad = fmt.Sprintf("the caller of the panicking request (seq %d) received a response with seq %d", pseq, msgs[0].Seq())
+		case msgs[0].MessageStatusType() != protocol.Error || !strings.Contains(msgs[0].Metadata[protocol.ServiceError], text):
+			bad = fmt.Sprintf("the response to the panicking request has status %v and error text %q (panic value %q)", msgs[0].MessageStatusType(), msgs[0].Metadata[protocol.ServiceError], text)
+		}
+		if bad == "" {
+			bad = stray
+		}
+		if bad != "" {
+			o.Violate("c07.panic-hold", "requests were served on other connections while the server was reporting a handler panic: "+bad, rp)
+			return
+		}
+	}
 }
